@@ -22,7 +22,10 @@ Blocks == <<"; a comment with ( and \"\n", "\n", "(def a1 1)\n", "(def a2\n  (+ 
             "(def a3 ¬line1\nline2 (\nline3¬)\n", "(def a4 \"s\") ; trailing comment\n\n">>
 Faults == <<[n |-> "undefined", t |-> "undefined-sym"], [n |-> "throw", t |-> "(throw \"boom\")"],
             [n |-> "builtin", t |-> "(nth [1] 5)"], [n |-> "assert", t |-> "(assert false \"failed\")"],
-            [n |-> "thread-builtin", t |-> "(-> [1] (nth 5))"], [n |-> "thread-last-throw", t |-> "(->> \"boom\" (throw))"]>>
+            [n |-> "thread-builtin", t |-> "(-> [1] (nth 5))"], [n |-> "thread-last-throw", t |-> "(->> \"boom\" (throw))"],
+            \* the failing expression as the LAST operand of a multi-operand library macro / an INNER step of ->
+            [n |-> "and-last-builtin", t |-> "(and 1 2 (nth [1] 5))"], [n |-> "or-last-throw", t |-> "(or false nil (throw \"boom\"))"],
+            [n |-> "thread-inner-builtin", t |-> "(-> [1] (nth 7) (or 0))"]>>
 
 \* wrappers: d = definition form (earlier top-level form) or "", b/a = text before/after the fault,
 \* where = "call" if the fault sits in the calling form, "def" if it sits in the definition form
